@@ -127,7 +127,9 @@ func (w *docWriter) ubTypedMarker(elems []Val, st UBStyle) byte {
 	}
 	switch cl {
 	case 'Z', 'T', 'F':
-		if !st.NoPayload {
+		// payload-less typed containers only with few elements: their cost is
+		// proportional to the count, not to the bytes (known finding of C03)
+		if !st.NoPayload || len(elems) > 32 {
 			return 0
 		}
 	case '[', '{':
